@@ -539,7 +539,7 @@ func init() {
 			fmt.Println(jstr(res.After.Store))
 			return 0
 		}
-		n, nfault := 1500, 150
+		n, nfault := 6000, 450
 		if thorough() {
 			n, nfault = 100000, 6000
 		}
